@@ -1478,7 +1478,30 @@ def oracles_C07(ctx, hints):
            [{"fields": pmt_valid(rng)} for _ in range(ctx.scale(6, 200) * mult)], ctx)
     _first(fails, "mpeg_stanag_flip", "STANAG4609", "detects_flip", check_stanag_flip,
            [{"fields": stanag_valid(rng)} for _ in range(ctx.scale(10, 400) * mult)], ctx)
+    # known finding K8: a FORGED packet (second stream's descriptor bytes solved so that the section shortened by one
+    # flipped section_length bit ends in its own CRC).  The tags are computed from the input, not asserted: the flipped bit
+    # lies in section_length AND the four bytes at the moved end are the reference CRC of the moved range.
+    for kbit in (3, 4, 5, 6):
+        args = {"k": kbit}
+        w = _safe(check_pmt_slen_forged, args)
+        ctx.count("oracle_evaluations", 1)
+        if w:
+            fails.append(Failure("mpeg_pmt_slen_forged", args, w, dict({"class": "MPEGPacketPMT", "check": "detects_flip"}, **pmt_slen_forged_tags(kbit))))
+            break
     return fails
+
+def pmt_slen_forged_tags(kbit):
+    """what identifies known finding K8, recomputed on the packet: the flip is one of the 12 section_length bits and the
+    shortened section carries the (independent reference) CRC-32/MPEG-2 of its own bytes"""
+    good, i, bit = forge_pmt_slen(int(kbit))
+    bad = bytearray(good); bad[i] ^= 1 << bit
+    ptr = bad[4]
+    sec = 5 + ptr                                   # table_id
+    in_slen = (i == sec + 1 and bit < 4) or i == sec + 2
+    L = ((bad[sec + 1] & 0x0F) << 8) | bad[sec + 2]
+    body, crc = bytes(bad[sec:sec + 3 + L - 4]), bytes(bad[sec + 3 + L - 4:sec + 3 + L])
+    return {"field": "section_length" if in_slen else "other",
+            "crc_coincidence": len(crc) == 4 and int.from_bytes(crc, "big") == ref_crc32_mpeg2(body)}
 
 # =================================================================================== C09: sync byte, PES prefix, STANAG key/tags/checksum
 def _c09_buffers(ctx):
